@@ -1142,15 +1142,70 @@ Proof.
       * apply Hq; auto. apply (C12 x Hx Hn).
 Qed.
 
+(* ------------------------------------------------------------------ remove_transition *)
+Lemma has_del_helper h x l : has_helper h (del_helper x l) = has_helper h l && negb (helper_eqb x h).
+Proof.
+  unfold del_helper, has_helper. induction l as [|a r IH]; simpl; auto.
+  destruct (helper_eqb x a) eqn:E; simpl.
+  - apply helper_eqb_eq in E. subst a. rewrite IH.
+    destruct (helper_eqb h x) eqn:E2; simpl; auto.
+    apply helper_eqb_eq in E2. subst. rewrite helper_eqb_refl. simpl. rewrite andb_false_r. reflexivity.
+  - rewrite IH. destruct (helper_eqb h a) eqn:E2; simpl; auto.
+    apply helper_eqb_eq in E2. subst a. rewrite E. reflexivity.
+Qed.
+
+Lemma remove_key_keys {A} e (l : list (nat * A)) x : In x (map fst (remove_key e l)) <-> In x (map fst l) /\ x <> e.
+Proof.
+  unfold remove_key. induction l as [|[a v] r IH]; simpl; [tauto|].
+  destruct (Nat.eqb a e) eqn:E; simpl.
+  - apply Nat.eqb_eq in E. subst a. rewrite IH. intuition. subst. congruence.
+  - apply Nat.eqb_neq in E. rewrite IH. intuition. subst. auto.
+Qed.
+
+Lemma Inv_remove_transition k w e src dst r w' : Inv k w -> remove_transition k w e src dst = (r, w') -> Inv k w'.
+Proof.
+  intros I H. unfold remove_transition in H.
+  destruct (lookup (m_events (w_mc w)) e) as [ts|] eqn:El.
+  - destruct (filter (keep_trans src dst) ts) as [|t0 ts0] eqn:Ef; injection H as _ <-.
+    + (* the event is deleted, registered models lose <event> *)
+      match goal with |- Inv k (regen_graphs k ?W) => destruct (regen_graphs_f k W) as (R1&R2&R3&R4&R5&R6&R7&R8) end.
+      constructor.
+      * rewrite R2. apply I.
+      * rewrite R1, R2, R3. cbn. intros x h Hx He. unfold unbind_all.
+        apply mem_nat_In in Hx. rewrite Hx. apply mem_nat_In in Hx. cbn [o_helpers].
+        rewrite has_del_helper. apply andb_true_iff. split.
+        -- apply I; auto. destruct He as [Hd|Hr]; [left|right; exact Hr].
+           destruct h; cbn in *; auto; apply remove_key_keys in Hd; tauto.
+        -- apply negb_true_iff. destruct (helper_eqb (HEv e) h) eqn:E; [|reflexivity].
+           apply helper_eqb_eq in E. subst h. destruct He as [Hd|[Hc _]]; [|discriminate].
+           cbn in Hd. apply remove_key_keys in Hd. tauto.
+      * rewrite R2, R3. cbn. intros x Hx. unfold unbind_all.
+        apply mem_nat_In in Hx. rewrite Hx. apply mem_nat_In in Hx. cbn [o_state]. apply I; auto.
+      * rewrite R2, R4. apply I.
+      * rewrite R2, R5. apply I.
+    + match goal with |- Inv k (regen_graphs k ?W) => destruct (regen_graphs_f k W) as (R1&R2&R3&R4&R5&R6&R7&R8) end.
+      constructor.
+      * rewrite R2. apply I.
+      * rewrite R1, R2, R3. cbn. intros x h Hx He. apply I; auto.
+        destruct He as [Hd|Hr]; [left|right; exact Hr].
+        destruct h; cbn in *; auto; apply set_assoc_keys in Hd; destruct Hd as [Hd| ->]; auto;
+          eapply lookup_Some_in; exact El.
+      * rewrite R2, R3. apply I.
+      * rewrite R2, R4. apply I.
+      * rewrite R2, R5. apply I.
+  - injection H as _ <-. exact I.
+Qed.
+
 (* ------------------------------------------------------------------ the invariant holds after every history *)
 Lemma Inv_step k ev w o : Inv k w -> Inv k (step_w k ev w o).
 Proof.
-  intro I. unfold step_w, step. destruct o as [m init|ms init|m|s sd|e t|m bn e a|e a|].
+  intro I. unfold step_w, step. destruct o as [m init|ms init|m|s sd|e t|e src dst|m bn e a|e a|].
   - destruct (add_model k w m init) as [r w'] eqn:E. simpl. eapply Inv_add_model; eassumption.
   - destruct (add_models k w ms init) as [r w'] eqn:E. simpl. eapply Inv_add_models; eassumption.
   - destruct (remove_model k w m) as [r w'] eqn:E. simpl. eapply Inv_remove_model; eassumption.
   - destruct (add_state k w s sd) as [r w'] eqn:E. simpl. eapply Inv_add_state; eassumption.
   - destruct (add_transition k w e t) as [r w'] eqn:E. simpl. eapply Inv_add_transition; eassumption.
+  - destruct (remove_transition k w e src dst) as [r w'] eqn:E. simpl. eapply Inv_remove_transition; eassumption.
   - destruct (trigger_on k ev w m bn e a) as [b w'] eqn:E. simpl.
     destruct (trigger_on_frame _ _ _ _ _ _ _ _ _ E) as (F1 & F2 & F3).
     eapply Inv_multi; [exact I | eapply frame_multi; exact F3].
@@ -1313,7 +1368,7 @@ Qed.
 
 Lemma step_untouched k ev w o m : ~ In m (w_models w) -> ~ mentions m o -> untouched m w (step_w k ev w o).
 Proof.
-  intros Hm Ho. unfold step_w, step. destruct o as [m' init|ms init|m'|s sd|e t|m' bn e a|e a|]; simpl in Ho.
+  intros Hm Ho. unfold step_w, step. destruct o as [m' init|ms init|m'|s sd|e t|e src dst|m' bn e a|e a|]; simpl in Ho.
   - destruct (add_model k w m' init) as [r w'] eqn:E. simpl. unfold add_model in E.
     destruct (add_core k w m' init) as [oe w1] eqn:Ec.
     destruct (add_core_untouched _ _ _ _ _ _ _ Ec Ho Hm) as (C1&C2&C3&C4&C5).
@@ -1361,6 +1416,14 @@ Proof.
     destruct (lookup (m_events (w_mc w)) e); cbn; splits; auto;
       try (intro H; apply R8 in H; cbn in H; tauto).
     apply (bind_all_f (w_models w) (ev_helpers k e) (w_obj w) m). exact Hm.
+  - destruct (remove_transition k w e src dst) as [r w'] eqn:E. simpl. unfold remove_transition in E.
+    destruct (lookup (m_events (w_mc w)) e) as [ts|].
+    + destruct (filter (keep_trans src dst) ts); injection E as _ <-;
+        match goal with |- untouched m w (regen_graphs k ?W) => destruct (regen_graphs_f k W) as (R1&R2&R3&R4&R5&R6&R7&R8) end;
+        unfold untouched; rewrite R2, R3, R4, R5; cbn; splits; auto;
+        try (intro H; apply R8 in H; cbn in H; tauto).
+      unfold unbind_all. apply mem_nat_false in Hm. rewrite Hm. reflexivity.
+    + injection E as _ <-. unfold untouched. splits; auto.
   - destruct (trigger_on k ev w m' bn e a) as [b w'] eqn:E. simpl.
     destruct (trigger_on_frame _ _ _ _ _ _ _ _ _ E) as (F1 & F2 & F3).
     eapply multi_untouched; [eapply frame_multi; exact F3 | | exact Hm].
@@ -1844,3 +1907,19 @@ Lemma copy_thm k ev w :
   (forall x, In x (w_ctx (copy_world k w)) -> In x (w_ctx w) \/ In x (w_models w)) /\
   (forall x, In x (w_graphs (copy_world k w)) -> In x (w_graphs w) \/ In x (w_models w)).
 Proof. unfold step, copy_world. destruct (k_locked k), (k_graph k); cbn; splits; auto. Qed.
+
+(* a trigger whose transitions were all removed and which is declared again is bound on EVERY registered model —
+   those added before the removal and those added after it — and dispatch reaches each once (hierarchical flags) *)
+Lemma trigger_rebound_witness :
+  let k := mkClass false false true false QNo in
+  let ev := fun (_ _ : nat) => mkReply true None [] in
+  let t := mkTrans 0 (Some 0) [] [] [] [] in
+  let w := run k ev (init_world mc1 0)
+               [OAddModel 0 None; OAddTransition 5 t; ORemoveTransition 5 None None; OAddModel 1 None;
+                OAddTransition 5 t] in
+  has_helper (HEv 5) (o_helpers (w_obj w 0)) = true /\ has_helper (HMay 5) (o_helpers (w_obj w 0)) = true /\
+  has_helper (HEv 5) (o_helpers (w_obj w 1)) = true /\ has_helper (HMay 5) (o_helpers (w_obj w 1)) = true /\
+  has_helper (HEv 5) (o_helpers (w_obj (run k ev (init_world mc1 0)
+               [OAddModel 0 None; OAddTransition 5 t; ORemoveTransition 5 None None]) 0)) = false /\
+  match step k ev w (ODispatch 5 7) with (bs, r, _) => map b_model bs = [0; 1] /\ r = inr (Some true) end.
+Proof. vm_compute. repeat split; reflexivity. Qed.
